@@ -34,6 +34,10 @@ CLAIMED = {
          'Id uniqueness, callback-only-on-matching-ack, foreign/duplicate ACK inert, none-after-disconnect, call() result as theorems; '
          'adversarial ACK streams on both families and the model.',
          TB + 'call(): the wait primitive is scripted.', '§5 C06'),
+ 'C10': ('proof', 'Lean 4 theorems over an exact-rational model of the reconnection loop and its start decision; correspondence with Client/AsyncClient over scripted engine.io outcomes and wait primitives',
+         'Back-off formula, attempt bound, first-success stop, abort, same-parameters and start-decision theorems for unbounded efforts; every '
+         'failure pattern up to length 6 and the full parameter grid executed on both client families, waits observed through the wait primitives.',
+         TB + 'engine.io client state contract (measured every run); dyadic parameter grid so floats are exact.', '§5 C10'),
  'C11': ('proof', 'Lean 4 erase/fresh theorems over the server-core model; correspondence under fault scripts; model-free object-graph probe',
          'After transport loss nothing in the model state mentions the transport (theorem, any prefix history, any handler raising); the '
          'real servers are searched for references after every loss and their object graph is walked after 1/10/100 come-and-go clients.',
@@ -58,6 +62,14 @@ CLAIMED = {
          'Faithful-forwarding is decided by `decide` over the regenerated table and lifted to every environment by eval_faithful; the '
          'translator is validated by executing each helper for every subset of optional arguments.',
          TB + 'the ast translator (validated dynamically on every run).', '§5 C17'),
+ 'C18': ('proof', 'Lean 4 theorems: admission gate with Python == on JSON values, read-only registry + frame lemma over the server model; side-by-side instrumented/plain real servers (translation validation of transparency)',
+         'admits_iff / pyEq key-set theorems / read-only inertness over Server.step as theorems; real admin_connect on generated payloads; '
+         'instrumented and plain servers run the same scenarios and application-visible observations are diffed.',
+         TB + 'transparency of the wrappers is decided by the side-by-side run, not by a theorem.', '§5 C18'),
+ 'C20': ('proof', 'Lean 4: serial-gate theorem for all schedules of the scheduler model + machine-checked race counter-examples; exhaustive interleavings of the real threaded Server under a deterministic scheduler',
+         'gate_serial_partial for every schedule without overlapping check..mark windows; race_double_call / race_raise_residue decided; '
+         'all interleavings of 2 (quick) / 3 (thorough) terminating actions at manager/transport-call granularity on the real Server, each mapped to the model.',
+         TB + 'pre-emption at method-call granularity on manager/transport, not bytecode; the overlapping-window region is the known finding gate-overlap.', '§5 C20'),
 }
 
 def main():
